@@ -12,7 +12,7 @@ CLAIMED = {
         technique="Lean 4 proof (induction over request sequences for the slot state machine; kernel decide over the regenerated path and site tables) + adversarial differential / liveness testing of the real RPC module",
         ref="DESIGN.md §6 C09"),
     "C04": dict(
-        text="Lean theorems: for every state reachable by a legal history of any length, every commit block, every write index i and every durable in-window target n, (first i persistent writes of the commit, process death, reopen, reorg n) does not panic and every key reads its value at the end of block n; the same for a crash at any write of the commit that ends a reorg; a crash with no write in flight loses only uncommitted work; crash after the last write = completed commit. Tie: suite T compares the per-key order of the persistent writes the real BlockCachedDatabase issues in commit/reorg (recorded by the failpoint hook) with the model's write list, plus on-disk rows; suite X kills the real engine process at sampled write indices of every commit / reorg of random histories, reopens, reorgs to a durable height and compares the whole observable state with a fresh replay",
+        text="Lean theorems: ENGINE LEVEL - a crash at any index of the global write sequence of commit_changes (3 block tables then 12 versioned tables; order regenerated from the source, theorems hold for any order) cuts each table at its own index, and after reopen brc20_reorg(n0) to a durable in-window height is accepted, every table reads its value at n0, block tables hold exactly the persisted rows <= n0 and the node stands at n0; the same for a crash inside brc20_reorg(m). TABLE LEVEL - for every state reachable by a legal history of any length, every commit block, every write index i and every durable in-window target n, (first i persistent writes of the commit, process death, reopen, reorg n) does not panic and every key reads its value at the end of block n; the same for a crash at any write of the commit that ends a reorg; a crash with no write in flight loses only uncommitted work; crash after the last write = completed commit. Tie: suite T compares the per-key order of the persistent writes the real BlockCachedDatabase issues in commit/reorg (recorded by the failpoint hook) with the model's write list, plus on-disk rows; suite X kills the real engine process at sampled write indices of every commit / reorg of random histories, reopens, reorgs to a durable height and compares the whole observable state with a fresh replay",
         note="trusted: Lean kernel (+ propext, Classical.choice, Quot.sound); RocksDB single-write atomicity and persistence across process death (parameter; power-loss / fsync durability not modelled); failpoint hook; composition across the engine's tables is exercised (suite X), the theorems are per table. The defect found by the proof attempt (F18: history deleted before the value row was rewritten) was repaired by a fix: commit and is listed as fixed in known_findings.json",
         technique="Lean 4 proof (simulation invariant over crash prefixes of the write list) + write-order correspondence + real process-kill differential test",
         ref="DESIGN.md §6 C04"),
@@ -42,7 +42,7 @@ CLAIMED = {
         technique="Lean 4 proof (loop invariant + halving measure for the bisection, arithmetic) + differential correspondence + recorded-probe check",
         ref="DESIGN.md §6 C16"),
     "C01": dict(
-        text="Lean: acceptance rule as an iff, refused = untouched, an accepted reorg never panics and every table reads the value each key had at the end of the target block (via the table refinement of C13), block rows above the target gone, simulation kept with logs truncated (so later executions continue from that state); tie: the Lean engine model reproduces the real engine's full state digest (12 versioned tables x 3 columns, block tables, heights, block under construction) after every op of random histories, and at every accepted reorg the real instance is compared with a fresh instance replayed up to the target and kept in lockstep afterwards",
+        text="Lean: for EVERY reachable state of the engine model (the empty node closed under all operations with any arguments and any recorded events) the tables refine plain per-key logs, stamps obey the block discipline, and every reorg the engine does not refuse answers ok and restores every table to the end of the target block - with the single proviso that the two pending-pool tables carry no stamp above the tip (= known finding F10, reproduced by the model); acceptance rule as an iff, refused = untouched, an accepted reorg never panics and every table reads the value each key had at the end of the target block (via the table refinement of C13), block rows above the target gone, simulation kept with logs truncated (so later executions continue from that state); tie: the Lean engine model reproduces the real engine's full state digest (12 versioned tables x 3 columns, block tables, heights, block under construction) after every op of random histories, and at every accepted reorg the real instance is compared with a fresh instance replayed up to the target and kept in lockstep afterwards",
         note='trusted: Lean kernel (+ propext, Classical.choice, Quot.sound); revm, hashes and RocksDB as parameters; the hooks (EVM recorder, table-write events, state probe) and the harness; see DESIGN.md §3',
         technique='Lean 4 proof (per-table forward simulation lifted to the 12-table node) + state-digest correspondence + fresh-replay twin',
         ref="DESIGN.md §6 C01"),
@@ -52,17 +52,17 @@ CLAIMED = {
         technique='Lean 4 proof (decide over regenerated constants, order-independence of scans) + replica twins + golden digests',
         ref="DESIGN.md §6 C02"),
     "C03": dict(
-        text='Lean: commit changes no table read, no block read, no height, keeps the simulation; commit+reopen likewise; clear/reopen = durable logs of the last commit; tie: engine-model state-digest correspondence incl. on-disk columns; twin with a different commit/restart schedule; after clearCaches/reopen the instance is compared with a fresh replay of the committed prefix',
+        text='Lean: for EVERY reachable state commit at a boundary changes no table read, no block read, no height; commit+reopen likewise; after clear / reopen every table reads the log of the last commit; a call that is not a commit point only writes caches (a restart after it = a restart before it); commit_changes / clear_caches / reorg each walk all 12+3 tables exactly once (table lists regenerated from the source, decide); commit+reopen likewise; clear/reopen = durable logs of the last commit; tie: engine-model state-digest correspondence incl. on-disk columns; twin with a different commit/restart schedule; after clearCaches/reopen the instance is compared with a fresh replay of the committed prefix',
         note='trusted: Lean kernel (+ propext, Classical.choice, Quot.sound); revm, hashes and RocksDB as parameters; the hooks (EVM recorder, table-write events, state probe) and the harness; see DESIGN.md §3',
         technique='Lean 4 proof (simulation preserved by commit/clear) + schedule twins',
         ref="DESIGN.md §6 C03"),
     "C05": dict(
-        text='Lean: every error response of add-tx / transact / finalise / commit / reorg / initialise(genesis,height) / mine(mid-block) returns the node unchanged; each protocol rule (index, timestamp, hash, count, existing block, mid-block commit/reorg) is refused; tie: model predicts the response class of every call incl. injected violations; the real state digest must be unchanged after every error response',
+        text='Lean: every error response of add-tx / transact / finalise / commit / reorg / initialise(genesis,height) / mine (for every node: after its pre-checks the loop cannot answer an error) returns the node unchanged; each protocol rule (index, timestamp, hash, count, existing block, mid-block commit/reorg) is refused; tie: model predicts the response class of every call incl. injected violations; the real state digest must be unchanged after every error response',
         note='trusted: Lean kernel (+ propext, Classical.choice, Quot.sound); revm, hashes and RocksDB as parameters; the hooks (EVM recorder, table-write events, state probe) and the harness; see DESIGN.md §3',
         technique='Lean 4 proof (case analysis of the engine model) + response-class correspondence + before/after digests',
         ref="DESIGN.md §6 C05"),
     "C06": dict(
-        text='Lean: accepted finalise creates exactly the next height with hash row, block rows, inverse index; counts exact; indexes consecutive; log index and cumulative gas are running sums; tie: coherence oracle over the real chain at every block boundary (parent hashes, hash<->number, tx/receipt/(block,index)/inscription lookups, log indexes, cumulative gas, receipts returned = receipts served)',
+        text='Lean: for EVERY reachable state the three block tables hold rows for exactly the numbers below the next height (gap-free, together, also mid-block and on disk) and the heights are read off the hash table; accepted finalise creates exactly the next height with hash row, block rows, inverse index; counts exact; indexes consecutive; log index and cumulative gas are running sums; tie: coherence oracle over the real chain at every block boundary (parent hashes, hash<->number, tx/receipt/(block,index)/inscription lookups, log indexes, cumulative gas, receipts returned = receipts served)',
         note='trusted: Lean kernel (+ propext, Classical.choice, Quot.sound); revm, hashes and RocksDB as parameters; the hooks (EVM recorder, table-write events, state probe) and the harness; see DESIGN.md §3',
         technique='Lean 4 proof (model invariants) + coherence oracle on the real code',
         ref="DESIGN.md §6 C06"),
@@ -92,7 +92,7 @@ CLAIMED = {
         technique='Lean 4 proof (environment check) + context probe contract',
         ref="DESIGN.md §6 C19"),
     "C11": dict(
-        text="Lean theorem: under writer-preferring read-write locks, any number of threads running programs that never re-acquire a held lock, acquire in strictly increasing rank and release what they acquire can never be stuck (unbounded threads and schedules; invariant + maximal-rank argument), every step decreases a measure, and the two hazards (re-entrant read with a queued writer, order inversion) are proved to deadlock; tie: the lock programs of every RPC method are recorded from the running code on every run (tracer hook), translated into Gen/LockTraces.lean with a proposed order, and every program is re-checked against the discipline by kernel `decide`",
+        text="Failing-input search: suite D runs reader threads over every read method against one or two indexer threads on the real engine in a child process and reports when all threads are stuck. Lean theorem: under writer-preferring read-write locks, any number of threads running programs that never re-acquire a held lock, acquire in strictly increasing rank and release what they acquire can never be stuck (unbounded threads and schedules; invariant + maximal-rank argument), every step decreases a measure, and the two hazards (re-entrant read with a queued writer, order inversion) are proved to deadlock; tie: the lock programs of every RPC method are recorded from the running code on every run (tracer hook), translated into Gen/LockTraces.lean with a proposed order, and every program is re-checked against the discipline by kernel `decide`",
         note="trusted: Lean kernel (+ propext, Classical.choice, Quot.sound); writer-preferring semantics of std RwLock; the tracer and translator; executed paths only (coverage of methods is printed in the evidence); RocksDB/tokio internals and scheduler fairness not modelled",
         technique="Lean 4 proof (progress + termination of disciplined lock programs) + traces regenerated from the running code, checked by decide",
         ref="DESIGN.md §6 C11"),
